@@ -175,6 +175,23 @@ def run(ctx):
             for c in range(8, len(b)):
                 items.append((iid + "/cut=%d" % c, "file", b[:c]))
                 g6 += 1
+    # G7: boxes that refer to each other (CrossRefs.tla): every combination of child variants of a traf (with its init) and
+    # of an stbl that deviates from the consistent baseline in at most MaxDev children
+    g7, g7_consistent = 0, 0
+    for mode in ("traf", "stbl"):
+        rx = ctx.tlc_ok("CrossRefs", "CrossRefs_%s_%s.cfg" % (mode, "quick" if q else "thorough"), workers=12, timeout=3000, heap="12g")
+        if len(rx.exported) < 1000:
+            raise core.Machinery("CrossRefs %s exported only %d combinations" % (mode, len(rx.exported)))
+        cx = ctx.write_ndjson("crossrefs_%s.ndjson" % mode, sorted(rx.exported, key=lambda e: json.dumps(e["combo"], sort_keys=True)))
+        for o in ctx.harness(["c04-crossrefs", "-in", cx]):
+            items.append((o["id"], "file", bytes.fromhex(o["hex"])))
+            g7 += 1
+            if o["consistent"]:
+                g7_consistent += 1
+                if not o["accepted"]:
+                    ctx.drift.append({"key": "G7-consistent-rejected/" + o["id"], "what": "CrossRefs.tla calls the combination consistent but DecodeFile rejects the materialised file", "case": {"id": o["id"]}})
+    if g7_consistent < 4:
+        raise core.Machinery("only %d consistent G7 combinations" % g7_consistent)
     trace, fatals = rc.monitor_sharded(ctx, "c04", items, shards=12, mem_kb=6000000)
     ctx.cov["evaluations"] = len(items)
     ctx.cov["distinct_nontrivial"] = len(set(b for _, _, b in items))
@@ -188,6 +205,7 @@ def run(ctx):
                          "G4": "truncation at every box boundary +-{0,1,4,8,hdr+4}; every byte for files <= 2 KiB",
                          "G5": "single deletion and adjacent swap of top-level and second-level boxes; deletion of any nested box with the size fields of all its ancestors adjusted",
                          "G6": "%d inputs: every instance of the 134 BoxLayouts.tla box shapes%s" % (g6, "" if q else " and every truncation of the count-2 shape instances"),
+                         "G7": "%d files: every combination of child variants (CrossRefs.tla) of a traf with its init segment (tfhd/trun/senc/saiz/saio/sbgp/sgpd x clear, cenc, cbcs init or none) and of an stbl (stsd/stts/ctts/stsc/stsz/stco/stss) deviating from the consistent baseline in at most %s children; %d of them consistent (must be accepted)" % (g7, "3" if q else "all", g7_consistent),
                          "bases": "%d files (corpus + seeded slice of G1)" % nsel,
                          "configurations": "DecodeFile / lazy / DecodeFileSR x flags {none, ISM, start-on-moof, both}; DecodeBox / DecodeBoxSR loops; Info at 4 levels; Encode and EncodeSW in both modes with and without trun optimisation",
                          "budgets": "2 s + 20 us/byte wall, 16 MiB + 1024 x length allocated, workers under ulimit -v 6 GB", "fatal_worker_crashes": fatals}
